@@ -153,9 +153,13 @@ pub struct VHasher {
     /// differently, a clone hashes like its source.  Only the kinds that look at the content depend on it.
     pub seed: u64,
 }
+/// Every `VHasher::default()` gets its own state, like `RandomState::default()`: code that builds two hashers
+/// where one (cloned) is meant shows.
+pub static DEFAULT_SEEDS: std::sync::atomic::AtomicU64 = std::sync::atomic::AtomicU64::new(1 << 20);
+
 impl Default for VHasher {
     fn default() -> Self {
-        VHasher { kind: HashKind::from_u8(DEFAULT_HASH_KIND.load(Ordering::SeqCst)), seed: 0 }
+        VHasher { kind: HashKind::from_u8(DEFAULT_HASH_KIND.load(Ordering::SeqCst)), seed: DEFAULT_SEEDS.fetch_add(1, Ordering::Relaxed) }
     }
 }
 impl VHasher {
